@@ -64,7 +64,7 @@ def heap_traffic_cases(backends, rng, count):
 
 
 CORE_LEAF_FILES = ["LeafCoreFd.v", "LeafCoreTask.v", "LeafCoreMain.v", "LeafCoreEpoll.v", "LeafCorePoll.v", "LeafCoreEvent.v",
-                   "LeafCoreLists.v"]
+                   "LeafCoreLists.v", "LeafCoreRaw.v"]
 
 
 class CoreCheck(LineCheck):
@@ -615,6 +615,7 @@ class C07(CoreCheck):
 
 class C09(CoreCheck):
     pid = "C09"
+    core_leaf = True
     codes = [(900, 1000), (105, 106)]
     profiles = ["event", "event", "mixed"]
     with_faults = 0.5
